@@ -66,6 +66,8 @@ type Store struct {
 	// ReadFault, if set, may alter the outcome of a Load
 	ReadFault func(proc string, h backend.Handle, length int, off int64, data []byte) ([]byte, error)
 	Conns uint
+	// AfterMut, if set, is called (without the store mutex) after every mutating operation
+	AfterMut func(mut int, kind string, h backend.Handle, ok bool)
 }
 
 // NewStore creates an empty store.
@@ -127,6 +129,9 @@ func (s *Store) Revive() {
 	s.dead = false
 	s.DieAt = 0
 	s.Fault = nil
+	s.OnDead = nil
+	s.AfterMut = nil
+	s.mut = 0
 }
 
 // Files returns a copy of the current content.
@@ -326,9 +331,13 @@ func (b *tbe) mutating(kind string, h backend.Handle, data []byte, do func() err
 		s.dead = true
 		onDead = s.OnDead
 	}
+	afterFn := s.AfterMut
 	s.mu.Unlock()
 	if onDead != nil {
 		onDead()
+	}
+	if afterFn != nil {
+		afterFn(mut, kind, h, err == nil)
 	}
 	return err
 }
